@@ -15,7 +15,7 @@ CHECKS = {
    "Per scenario a counting run lists every hit of every named crash point (record mkdir/create/write/close/rename, index create/write, evaluation enter/deps-done/before-body/after-body/after-save, body start/middle/end) per target; one child per distinct (point,label,n) is SIGKILLed exactly there at limits 1 and 4, then a fresh process loads and rebuilds. Also every failure pattern of one body and sampled pairs. Exhaustive per scenario over the named points; scenarios are generated.",
    "Crash = kill -9 of the process (no power-loss model). Crash points are the ones named by the verif hooks plus the body points.", "DESIGN.md §5 C03"),
  "C04": ("exploration", "assertion monitors in harness Targets/Target at the runner's client boundary, schedule perturbation at hook yield points, Go race detector",
-   "runner.Run driven over generated acyclic graphs at limits 1,2,3,4,8,16 (CPU affinity) under PRNG schedules; the harness asserts load/evaluate at most once, dependency finished before the dependent continues, outcome identity by pointer, Run's result. Repeated under -race. The same clause is also checked through real projects (dependency labels spelt in different legal ways, diamonds): every label is visited at most once per build.",
+   "runner.Run driven over generated acyclic graphs at limits 1,2,3,4,8,16 (CPU affinity) under PRNG schedules; the harness asserts load/evaluate at most once, dependency finished before the dependent continues, outcome identity by pointer in every slot (requests split over several calls, labels repeated inside one call), Run's result. Repeated under -race. The same clause is also checked through real projects (dependency labels spelt in different legal ways, diamonds): every label is visited at most once per build.",
    "Trusts the harness counters (atomics) and the graph generator.", "DESIGN.md §5 C04"),
  "C05": ("exploration", "exhaustive small-graph sweep + random cyclic graphs under perturbed schedules; termination decided by the Go runtime deadlock detector and a quiescence monitor",
    "Every directed graph on <=3 (quick) / <=4 (thorough) nodes incl. self-loops plus random graphs with planted cycles, at limits 1,2,16, in children that use no timers so that the runtime's deadlock detector fires; fatal errors (stack overflow) name their case through the journal; cyclicity computed independently; -race children use goroutine dumps.",
